@@ -18,7 +18,7 @@ import time
 
 import z3
 
-from .terms import EncodingUnsupported, bounds, sort_of
+from .terms import EncodingUnsupported, bounds, refine_bounds, sort_of
 
 DEFAULT_RLIMIT = int(os.environ.get("VERIF_RLIMIT", "20000000"))
 MAX_SHIFT_SPLIT = 520
@@ -83,6 +83,13 @@ class Encoder(object):
                         # contiguous run of ones (2^m - 1) << k :  (x mod 2^(m+k)) - (x mod 2^k)
                         return x % z3.IntVal((run + 1) * low) - x % z3.IntVal(low)
         (al, ah), (bl, bh) = bounds(at, self.bmemo), bounds(bt, self.bmemo)
+        if al == 0 and bl == 0 and ah is not None and bh is not None and ah <= 1 and bh <= 1:
+            # one-bit operands
+            if op == "and":
+                return a * b
+            if op == "or":
+                return a + b - a * b
+            return (a + b) % z3.IntVal(2)
         if op in ("or", "xor"):
             # disjoint bit ranges: (t << k) | y  with 0 <= y < 2^k  is an addition
             for (xt, x, yt, y, yl, yh) in ((at, a, bt, b, bl, bh), (bt, b, at, a, al, ah)):
@@ -208,6 +215,122 @@ class Encoder(object):
         raise EncodingUnsupported("operator %s" % op)
 
 
+
+class BVEncoder(object):
+    """Exact bit-vector encoding of the term IR at one generous width W: every integer sub-term has static bounds (from
+    the declared ranges of the variables), W is chosen so that every one of them fits in W-bit two's complement, hence no
+    operation can overflow and the encoding is exact, not an approximation.  Used for bit-level obligations
+    (& | ^ between symbolic operands, shifts by symbolic counts) where the integer encoding needs int2bv bridges."""
+
+    def __init__(self, terms):
+        self.bmemo = {}
+        self.memo = {}
+        self.vars = {}
+        self.ufs = {}
+        refine_bounds(terms, self.bmemo)
+        need = 2
+        seen = set()
+        stack = list(terms)
+        while stack:
+            t = stack.pop()
+            if isinstance(t, bool) or t is None or isinstance(t, str):
+                continue
+            if isinstance(t, int):
+                need = max(need, abs(t).bit_length() + 2)
+                continue
+            if id(t) in seen:
+                continue
+            seen.add(id(t))
+            op = t[0]
+            if op == "var":
+                if t[2] == "I":
+                    if t[3] is None or t[4] is None:
+                        raise EncodingUnsupported("bv: unbounded variable %s" % t[1])
+                    need = max(need, abs(t[3]).bit_length() + 2, abs(t[4]).bit_length() + 2)
+                continue
+            if op in ("uf", "ufb"):
+                raise EncodingUnsupported("bv: uninterpreted function")
+            if op == "pow" and not (isinstance(t[2], int) and 0 <= t[2] <= 8):
+                raise EncodingUnsupported("bv: pow")
+            if sort_of(t) == "I":
+                lo, hi = bounds(t, self.bmemo)
+                if lo is None or hi is None:
+                    raise EncodingUnsupported("bv: sub-term without static bounds (%s)" % op)
+                need = max(need, abs(lo).bit_length() + 2, abs(hi).bit_length() + 2)
+            stack.extend(x for x in t[1:] if not isinstance(x, (str, type(None))))
+        if need > 1100:
+            raise EncodingUnsupported("bv: width %d too large" % need)
+        self.W = need
+
+    def c(self, v):
+        return z3.BitVecVal(v, self.W)
+
+    def enc(self, t):
+        if isinstance(t, bool):
+            return z3.BoolVal(t)
+        if isinstance(t, int):
+            return self.c(t)
+        k = id(t)
+        r = self.memo.get(k)
+        if r is not None:
+            return r[1]
+        r = self._enc(t)
+        self.memo[k] = (t, r)
+        return r
+
+    def _floordiv(self, a, b, at, bt):
+        (al, ah), (bl, bh) = bounds(at, self.bmemo), bounds(bt, self.bmemo)
+        if isinstance(bt, int) and bt > 0 and (bt & (bt - 1)) == 0:
+            return a >> (bt.bit_length() - 1), a & self.c(bt - 1)
+        if al is not None and al >= 0 and bl is not None and bl > 0:
+            return z3.UDiv(a, b), z3.URem(a, b)
+        q = a / b
+        r = z3.SRem(a, b)
+        adj = z3.And(r != self.c(0), (r < self.c(0)) != (b < self.c(0)))
+        return z3.If(adj, q - self.c(1), q), z3.If(adj, r + b, r)
+
+    def _enc(self, t):
+        op = t[0]
+        if op == "var":
+            v = self.vars.get(t[1])
+            if v is None:
+                v = z3.Bool(t[1]) if t[2] == "B" else z3.BitVec(t[1], self.W)
+                self.vars[t[1]] = v
+            return v
+        if op == "b2i":
+            return z3.If(self.enc(t[1]), self.c(1), self.c(0))
+        if op == "not":
+            return z3.Not(self.enc(t[1]))
+        if op == "andb":
+            return z3.And(*[self.enc(x) for x in t[1:]])
+        if op == "orb":
+            return z3.Or(*[self.enc(x) for x in t[1:]])
+        if op == "iff":
+            return self.enc(t[1]) == self.enc(t[2])
+        if op in ("ite", "iteb"):
+            return z3.If(self.enc(t[1]), self.enc(t[2]), self.enc(t[3]))
+        a, b = self.enc(t[1]), self.enc(t[2])
+        if op == "eq": return a == b
+        if op == "lt": return a < b
+        if op == "le": return a <= b
+        if op == "add": return a + b
+        if op == "sub": return a - b
+        if op == "mul": return a * b
+        if op == "and": return a & b
+        if op == "or": return a | b
+        if op == "xor": return a ^ b
+        if op == "floordiv": return self._floordiv(a, b, t[1], t[2])[0]
+        if op == "mod": return self._floordiv(a, b, t[1], t[2])[1]
+        if op == "shl": return a << b
+        if op == "shr": return a >> b
+        if op == "pow":
+            r = self.c(1)
+            for _ in range(t[2]):
+                r = r * a
+            return r
+        raise EncodingUnsupported("bv: operator %s" % op)
+
+
 class Result(object):
     __slots__ = ("status", "model", "backend", "time", "reason")
 
@@ -238,40 +361,105 @@ def _model_to_dict(m, enc):
     return out
 
 
-def check(assertions, rlimit=None, want_model=True, use_cvc5=True):
-    """Satisfiability of the conjunction of boolean terms."""
-    t0 = time.time()
-    STATS["queries"] += 1
+def _has_bitop(assertions):
+    seen = set()
+    stack = [a for a in assertions if not isinstance(a, bool)]
+    while stack:
+        t = stack.pop()
+        if isinstance(t, (int, bool, str)) or t is None or id(t) in seen:
+            continue
+        seen.add(id(t))
+        if t[0] in ("and", "or", "xor") and not (isinstance(t[1], int) and isinstance(t[2], int)):
+            return True
+        if t[0] in ("shl", "shr") and not isinstance(t[2], int):
+            return True
+        if t[0] != "var":
+            stack.extend(t[1:])
+    return False
+
+
+def _check_int(assertions, rlimit, want_model):
     enc = Encoder()
+    refine_bounds([a for a in assertions if not isinstance(a, bool)], enc.bmemo)
     try:
         zs = [enc.enc(a) for a in assertions if a is not True]
     except EncodingUnsupported as e:
-        STATS["unknown"] += 1
-        return Result("unknown", backend="none", time_=time.time() - t0, reason="encoding: %s" % e)
-    if any(a is False for a in assertions):
-        return Result("unsat", backend="trivial", time_=0.0)
+        return Result("unknown", backend="none", reason="encoding: %s" % e), None, None
     s = z3.Solver()
-    s.set("rlimit", rlimit or DEFAULT_RLIMIT)
+    s.set("rlimit", rlimit)
     for z in zs:
         s.add(z)
     r = s.check()
-    dt = time.time() - t0
-    STATS["time"] += dt
     if r == z3.unsat:
-        STATS["z3"] += 1
-        return Result("unsat", backend="z3-int", time_=dt)
+        return Result("unsat", backend="z3-int"), s, enc
     if r == z3.sat:
-        STATS["z3"] += 1
-        return Result("sat", _model_to_dict(s.model(), enc) if want_model else None, "z3-int", dt)
-    reason = s.reason_unknown()
-    if use_cvc5:
-        r2 = _cvc5(s, enc)
+        return Result("sat", _model_to_dict(s.model(), enc) if want_model else None, "z3-int"), s, enc
+    return Result("unknown", backend="z3-int", reason=s.reason_unknown()), s, enc
+
+
+def _check_bv(assertions, rlimit, want_model):
+    try:
+        enc = BVEncoder([a for a in assertions if not isinstance(a, bool)])
+        zs = [enc.enc(a) for a in assertions if a is not True]
+    except EncodingUnsupported as e:
+        return Result("unknown", backend="none", reason="encoding: %s" % e)
+    s = z3.Solver()
+    s.set("rlimit", rlimit)
+    for z in zs:
+        s.add(z)
+    r = s.check()
+    if r == z3.unsat:
+        return Result("unsat", backend="z3-bv%d" % enc.W)
+    if r == z3.sat:
+        m = s.model()
+        out = {}
+        for name, v in enc.vars.items():
+            val = m.eval(v, model_completion=True)
+            if z3.is_bv_value(val):
+                out[name] = val.as_signed_long()
+            elif z3.is_true(val):
+                out[name] = True
+            elif z3.is_false(val):
+                out[name] = False
+        return Result("sat", out, "z3-bv%d" % enc.W)
+    return Result("unknown", backend="z3-bv", reason=s.reason_unknown())
+
+
+def check(assertions, rlimit=None, want_model=True, use_cvc5=True):
+    """Satisfiability of the conjunction of boolean terms.  Portfolio: integer encoding and exact wide bit-vector
+    encoding (bit-level obligations first in BV), then cvc5 on the integer encoding."""
+    t0 = time.time()
+    STATS["queries"] += 1
+    if any(a is False for a in assertions):
+        return Result("unsat", backend="trivial", time_=0.0)
+    rl = rlimit or DEFAULT_RLIMIT
+    bit = _has_bitop(assertions)
+    order = ("bv", "int") if bit else ("int", "bv")
+    last = None
+    s_int = enc_int = None
+    reasons = []
+    for which in order:
+        if which == "int":
+            r, s_int, enc_int = _check_int(assertions, rl if not bit else rl // 4, want_model)
+        else:
+            r = _check_bv(assertions, rl, want_model)
+        if r.status in ("sat", "unsat"):
+            r.time = time.time() - t0
+            STATS["time"] += r.time
+            STATS["z3"] += 1
+            return r
+        reasons.append("%s: %s" % (which, r.reason))
+        last = r
+    if use_cvc5 and s_int is not None:
+        r2 = _cvc5(s_int, enc_int)
         if r2 is not None:
             STATS["cvc5"] += 1
             r2.time = time.time() - t0
             return r2
     STATS["unknown"] += 1
-    return Result("unknown", backend="z3-int+cvc5", time_=time.time() - t0, reason=reason)
+    dt = time.time() - t0
+    STATS["time"] += dt
+    return Result("unknown", backend="z3-int+z3-bv+cvc5", time_=dt, reason="; ".join(reasons))
 
 
 CVC5 = "/usr/bin/cvc5"
@@ -317,17 +505,26 @@ def _cvc5(solver, enc):
 
 
 class Incremental(object):
-    """Path-condition solver used by the interpreter for branch feasibility: one z3 solver, assertions only grow."""
+    """Path-condition solver used by the interpreter for branch feasibility.  Integer encoding, one incremental z3
+    solver; as soon as the path condition contains a bit-level operation between symbolic operands the query goes to the
+    exact bit-vector encoding first (non-incremental), falling back to the integer solver."""
 
     def __init__(self, rlimit=None):
         self.enc = Encoder()
         self.s = z3.Solver()
-        self.s.set("rlimit", rlimit or 2000000)
+        self.rl = rlimit or 2000000
+        self.s.set("rlimit", self.rl)
+        self.s.set("timeout", int(os.environ.get("VERIF_FEAS_MS", "4000")))
         self.broken = None
+        self.pc = []
+        self.has_bit = False
 
     def add(self, t):
         if t is True:
             return
+        self.pc.append(t)
+        if not self.has_bit and _has_bitop([t]):
+            self.has_bit = True
         try:
             self.s.add(self.enc.enc(t))
         except EncodingUnsupported as e:
@@ -336,21 +533,27 @@ class Incremental(object):
 
     def feasible(self, t):
         """'sat' | 'unsat' | 'unknown' for PC and t"""
-        if t is True:
-            extra = []
-        elif t is False:
+        if t is False:
             return "unsat"
-        else:
-            try:
-                extra = [self.enc.enc(t)]
-            except EncodingUnsupported:
-                return "unknown"
-        t0 = time.time()
         STATS["queries"] += 1
-        r = self.s.check(*extra)
-        STATS["time"] += time.time() - t0
-        if r == z3.sat:
-            return "sat"
-        if r == z3.unsat:
-            return "unsat"
-        return "unknown"
+        t0 = time.time()
+        try:
+            if self.has_bit or (t is not True and _has_bitop([t])):
+                r = _check_bv(self.pc + ([t] if t is not True else []), self.rl, False)
+                if r.status in ("sat", "unsat"):
+                    return r.status
+            if t is True:
+                extra = []
+            else:
+                try:
+                    extra = [self.enc.enc(t)]
+                except EncodingUnsupported:
+                    return "unknown"
+            r = self.s.check(*extra)
+            if r == z3.sat:
+                return "sat"
+            if r == z3.unsat:
+                return "unsat"
+            return "unknown"
+        finally:
+            STATS["time"] += time.time() - t0
